@@ -52,8 +52,27 @@ def model_strategy(draw, quick):
   return gm
 
 
+F6_XML = ('<mujoco><worldbody><body gravcomp="1"><joint type="hinge" axis="0 1 0" actuatorgravcomp="true"/><geom size="0.1" pos="0.3 0 0"/>'
+          '</body></worldbody></mujoco>')
+
+
+def probes(ck, lib):
+  """Deterministic probe: gravcomp=1 routed through actuators in a model that has no actuator must still cancel gravity."""
+  m = lib.model_from_xml(F6_XML)
+  d = lib.make_data(m)
+  lib.mj_forward(m, d)
+  applied = float(d.qfrc_passive[0] + d.qfrc_actuator[0])
+  if abs(applied - float(d.qfrc_gravcomp[0])) > 1e-9 or abs(float(d.qacc[0])) > 1e-6:
+    ck.violation('actuatorgravcomp without any actuator: qfrc_gravcomp = %.9g but qfrc_passive + qfrc_actuator = %.9g, qacc = %.6g '
+                 '(expected 0: gravcomp=1)' % (d.qfrc_gravcomp[0], applied, d.qacc[0]), dict(xml=F6_XML),
+                 bucket='probe-actgravcomp-no-actuator', fingerprint='C29:actuatorgravcomp-no-actuator')
+  ck.label('probe:F6')
+
+
 def main(ck):
   lib = ck.lib('rel')
+  if not getattr(ck, '_replaying', False):
+    probes(ck, lib)
   E = lib.enums
   worst = {}
   stats = dict(actgravcomp_without_actuator=0)
